@@ -2,6 +2,7 @@ import Driver.Util
 import Driver.Geom
 import Driver.Cascade
 import Resvg.Convert.Structure
+import Resvg.Convert.SvgSize
 namespace Driver
 open Resvg Resvg.Geom Resvg.Convert
 
@@ -15,6 +16,23 @@ def handleStructure (op : String) (args : List String) : String :=
     | some (t, [dx, dy]) => match parseHw? dx, parseHw? dy with
       | some dx, some dy => showTs (resolveTransformOrigin t dx dy)
       | _, _ => "bad-op"
+    | _ => "bad-op"
+  | "origintsu", rest =>
+    -- transform + transform-origin given as lengths: `<unit>:<bits>` ×2, then view-box w h, dpi, font-size
+    match parseTs? rest with
+    | some (t, [lx, ly, vw, vh, dpi, fs]) =>
+      let len? (s : String) : Option Resvg.Convert.Length := match s.splitOn ":" with
+        | [u, b] => match parseUnit? u, parseF32? b with
+          | some u, some n => some { number := n, unit := u }
+          | _, _ => none
+        | _ => none
+      match len? lx, len? ly, parseF32? vw, parseF32? vh, parseF32? dpi, parseF32? fs with
+      | some lx, some ly, some vw, some vh, some dpi, some fs =>
+        -- converter.rs `resolve_transform`: x against the view-box WIDTH, y against its HEIGHT
+        let dx := Resvg.Convert.convertLength F32.rnd lx vw ⟨dpi, fs⟩
+        let dy := Resvg.Convert.convertLength F32.rnd ly vh ⟨dpi, fs⟩
+        showTs (resolveTransformOrigin t (Float32.ofBits (F32.encode dx)) (Float32.ofBits (F32.encode dy)))
+      | _, _, _, _, _, _ => "bad-op"
     | _ => "bad-op"
   | "usets", rest =>
     match parseTs? rest with
